@@ -64,6 +64,7 @@ class Sweep:
         self.pairs = {}
         self.outside = 0
         self.same_accepts = {}
+        self.examples = {}
 
     def one(self, suite, label, mut, raw, r, inner, want, alts=()):
         """one mutated message `raw`, one would-be recipient r"""
@@ -94,6 +95,16 @@ class Sweep:
         if not m_ok:
             k = (mo[6:], o[1] if o[0] == 'raise' else 'ok')
             self.pairs[k] = self.pairs.get(k, 0) + 1
+            if k[0].replace('parse:', '') != k[1] and len(self.examples.setdefault(k, [])) < 3:
+                self.examples[k].append('%s | %s | %s (%s)' % (label, mut, r[0], o[2] if o[0] == 'raise' else ''))
+            # exception CLASS at the decrypt stage (the message was parsed by both): the model's decrypt paths name the class the code
+            # raises -- PGPDecryptionError for every failure of a primitive, of the unpadding, of the session-key tail and of the
+            # integrity gate, PGPError for a key that is no recipient / a message cut after its session keys.  'Prim' (a cipher that
+            # cannot be set up for the data) has no class in the model
+            if o[0] == 'raise' and o[2] == 'decrypt' and not mo[6:].startswith('parse:'):
+                mc = {'NotEncrypted': 'NotEncryptedReturned'}.get(mo[6:], mo[6:])
+                if mc != 'Prim' and mc != o[1]:
+                    ctx.fail(suite, 'a rejected message leaves decrypt as %s where the model says %s' % (o[1], mc), dict(case, impl=repr(o)[:200], model=mo[:200], expect_exc=mc))
             # the passphrase loop converts every failure into PGPDecryptionError (or the message is refused before)
             if r[0] == 'P' and o[0] == 'raise' and o[2] == 'decrypt' and o[1] not in ('PGPDecryptionError', 'PGPError'):
                 ctx.fail(suite, 'PGPMessage.decrypt let a %s escape' % o[1], dict(case, model=mo))
@@ -217,7 +228,13 @@ def structural(ctx, sw, w, label, raw, recips, inner, want, alg, other=None):
         muts.append(('splice: MDC of the other message (%s)' % tagn, reframe(ct[:-22] + oct_[-22:])))
     for mu in muts:
         for r in recips:
-            sw.one('structural', label, mu[0], mu[1], r, inner, want, alts=mu[2] if len(mu) > 2 else ())
+            o = sw.one('structural', label, mu[0], mu[1], r, inner, want, alts=mu[2] if len(mu) > 2 else ())
+            if mu[0] == 'no encrypted data packet' and o != ('raise', 'PGPError', 'decrypt'):
+                # a message cut right after its session key packets: PGPMessage.decrypt and PGPKey.decrypt both refuse it with PGPError
+                # (PGPKey.decrypt used to hand the input object back with a "not encrypted" warning)
+                ctx.fail('structural', 'session key packets without an encrypted data packet are not refused with PGPError',
+                         {'op': 'fault', 'suite': 'structural', 'msg': label, 'mutation': mu[0], 'recipient': list(r), 'blob': mu[1].hex(), 'want': None,
+                          'expect_exc': 'PGPError', 'impl': repr(o)[:120]})
 
 
 def keyed_gate(ctx, sw, w, label, raw, recips, inner, want, alg, sk):
@@ -429,6 +446,8 @@ def run(ctx):
         downgrade_witness(ctx, sw, w)
         ctx.notes.append('model exception vs implementation exception on rejected inputs: %s' %
                          sorted(('%s / %s' % k, v) for k, v in sw.pairs.items()))
+        ctx.notes.append('examples where the classes differ (message | mutation | recipient kind (stage)): %s' %
+                         sorted(('%s / %s' % k, v) for k, v in sw.examples.items()))
         ctx.notes.append('mutations that still decrypt (to the ORIGINAL plaintext): %s' % sw.same_accepts)
         ctx.notes.append('mutated inputs outside the packet kinds of the model (direct oracle only): %d' % sw.outside)
         ctx.notes.append('oracle calls: %s' % dict(sorted(w.orc.calls.items())))
@@ -466,6 +485,8 @@ def replay(ctx, case):
             outs = run_history(w, bytes.fromhex(case['blob']), steps)
             return history_bad(outs, steps, {tuple(x) for x in case['rights']}, case['want']) is not None
         o = w.impl_decrypt(bytes.fromhex(case['blob']), tuple(case['recipient']))
+        if case.get('expect_exc'):
+            return o[:2] != ('raise', case['expect_exc'])
         if o[0] == 'raise':
             return False
         return case.get('want') is None or o[1] != case['want']
